@@ -7,17 +7,32 @@
 (*      "grp"  a group letter, id = index into GroupLetters                                               *)
 (*      "set"  items = the alternatives                                                                   *)
 (*      "wb"   word boundary #      "sb"  syllable boundary $                                             *)
+(*      "syl"  a syllable %, fm = stress/tone modifiers    "struct" <items>:fm  a syllable structure      *)
+(*      "opt"  (items, id:hi) optional, id = minimum, hi = maximum (0 = unbounded)                        *)
+(*      "ell"  ellipsis ...   "var" id = variable number   "empty" *   "met" &                            *)
+(*    var |-> n > 0: the element is bound to variable n (`=n`)                                            *)
+(* modifier entries: <<"f", feature, sign>>, <<"n", node, sign>>, <<"s", supra name, sign>>, <<"t", tone>> *)
+(*    sign = TRUE / FALSE (binary) or "A".."Z" / "-A".."-Z" (alpha, inverted alpha)                       *)
 (* An environment is [b |-> elements before the underline, a |-> elements after it], both in written      *)
 (* order (left to right). A (sub-)rule is [inp, out : Seq(element), ctx, exc : Seq(environment)]; more    *)
 (* than one environment in ctx/exc is an environment set :{ .. }:.                                        *)
 EXTENDS Features
 
-El(k, id, fm, items) == [k |-> k, id |-> id, fm |-> fm, items |-> items]
+El(k, id, fm, items) == [k |-> k, id |-> id, fm |-> fm, items |-> items, var |-> 0, hi |-> 0]
 Ipa(id)    == El("ipa", id, <<>>, <<>>)
 Mx(fm)     == El("mx", 0, fm, <<>>)
 Grp(g)     == El("grp", g, <<>>, <<>>)
 SetOf(its) == El("set", 0, <<>>, its)
 WB         == El("wb", 0, <<>>, <<>>)
+SylEl(fm)  == El("syl", 0, fm, <<>>)
+Struct(its, fm) == El("struct", 0, fm, its)
+Opt(its, lo, hi) == [El("opt", lo, <<>>, its) EXCEPT !.hi = hi]
+Ell        == El("ell", 0, <<>>, <<>>)
+VarRef(n)  == El("var", n, <<>>, <<>>)
+Empty      == El("empty", 0, <<>>, <<>>)
+Met        == El("met", 0, <<>>, <<>>)
+Bind(e, n) == [e EXCEPT !.var = n]
+WithMods(e, fm) == [e EXCEPT !.fm = @ \o fm]
 SB         == El("sb", 0, <<>>, <<>>)
 Env(b, a)  == [b |-> b, a |-> a]
 EmptyEnv   == Env(<<>>, <<>>)
